@@ -713,7 +713,7 @@ def generate(ctx):
             yield _store_case(rng, n=n, forced=p, fmt='pickle', direction=d)
     # (4) sampled configurations
     plan = ([('iter_t', ctx.n(1400, 40000)), ('iter_p', ctx.n(120, 6000)), ('batch_t', ctx.n(520, 13000)),
-             ('batch_p', ctx.n(64, 2800)), ('store', ctx.n(120, 4200)), ('align', ctx.n(48, 480))])
+             ('batch_p', ctx.n(64, 2800)), ('store', ctx.n(260, 6000)), ('align', ctx.n(48, 480))])
     order = [k for k, c in plan for _ in range(c)]
     rng.shuffle(order)
     for k in order:
